@@ -70,6 +70,13 @@ type StepC struct {
 	// segment and resets its socket at once
 	Fault string `json:"fault,omitempty"`
 	FK    int    `json:"fk,omitempty"`
+	// connect with Auth login: the DISPLAY NAME of the login message (Body.Info.User; the
+	// credentials are Head.User + Password, the display name is free text the teamserver keeps
+	// as the session's name): "" = the operator's name (what the client sends) | empty (the
+	// empty string) | nick (a name nobody else has) | other-op (the name of another configured
+	// operator, DispN picks which) | absent (no such field) | non-string (a number)
+	Disp  string `json:"disp,omitempty"`
+	DispN int    `json:"disp_n,omitempty"`
 }
 
 type CaseC struct {
@@ -120,6 +127,17 @@ type mconn struct {
 	bulk  bool // made by a bulk step
 	fault string // wrong-password only: the write of the refusal fails (cut | reset)
 	fk    int
+	dcls  string // login only: effective display-name class ("" = the operator's name)
+	disp  string // login only, dcls != "": the name the session is known by
+}
+
+// name: the name the teamserver knows an authenticated session by (the display name of its
+// login message; the operator's name when the login did not give a usable one).
+func (c *mconn) name() string {
+	if c.dcls == "empty" || c.dcls == "nick" || c.dcls == "other-op" {
+		return c.disp
+	}
+	return c.user
 }
 
 type mpend struct {
@@ -130,6 +148,11 @@ type mpend struct {
 	nrel    int
 	claim   string // effective claim class
 	claimed *mconn // the live session of the claimed operator (nil: nobody by that name is connected)
+	// sure: when the request was made the asker's session name named exactly one connection,
+	// the asker (see modelC.namesakes); otherwise HEAD's "first record of that name" may be
+	// any of them and nothing is demanded about the asker receiving the answer
+	sure bool
+	amb  string // "" | pending | session | pending+session: who else bore the asker's name
 }
 
 type modelC struct {
@@ -285,6 +308,40 @@ func (m *modelC) online(user string) bool {
 	return false
 }
 
+// namesakes: who else, besides the authenticated session a, is in the client table under a's
+// session name right now: other authenticated sessions with the same display name, and - when
+// that name is the empty string - every connection that has not sent its first message yet
+// (its record's name is still empty).  The teamserver resolves "the sender" of a request by
+// that name.
+func (m *modelC) namesakes(a *mconn) (sessions []*mconn, pending int) {
+	n := a.name()
+	for _, c := range m.conns {
+		if !c.live || c == a {
+			continue
+		}
+		switch {
+		case c.auth == "login" && c.name() == n:
+			sessions = append(sessions, c)
+		case c.auth == "silent" && n == "":
+			pending++
+		}
+	}
+	return
+}
+
+func (m *modelC) ambiguity(a *mconn) string {
+	ss, p := m.namesakes(a)
+	switch {
+	case p > 0 && len(ss) > 0:
+		return "pending+session"
+	case p > 0:
+		return "pending"
+	case len(ss) > 0:
+		return "session"
+	}
+	return ""
+}
+
 func mod(i, n int) int { return ((i % n) + n) % n }
 
 func (m *modelC) connect(s StepC) *mconn {
@@ -320,6 +377,22 @@ func (m *modelC) connect(s StepC) *mconn {
 	case "wrong-password":
 	default:
 		c.auth = "silent"
+	}
+	if c.auth == "login" {
+		switch s.Disp {
+		case "empty":
+			c.dcls, c.disp = "empty", ""
+		case "nick":
+			c.dcls, c.disp = "nick", "nick of "+c.user
+		case "other-op":
+			if n := len(m.users); n > 1 {
+				if o := m.users[mod(mod(s.User, n)+1+mod(s.DispN, n-1), n)].Name; o != c.user {
+					c.dcls, c.disp = "other-op", o
+				}
+			}
+		case "absent", "non-string":
+			c.dcls = s.Disp // (the teamserver falls back to Head.User: the operator's name)
+		}
 	}
 	m.conns = append(m.conns, c)
 	if c.auth == "wrong-password" && (s.Fault == "cut" || s.Fault == "reset") {
@@ -403,6 +476,8 @@ func (m *modelC) ask(s StepC) *mpend {
 	}
 	p := &mpend{id: len(m.pend), kind: kind, owner: l[mod(s.C, len(l))], open: true}
 	p.claim, _, p.claimed = m.claimOf(p.owner, s)
+	p.amb = m.ambiguity(p.owner)
+	p.sure = p.amb == ""
 	m.pend = append(m.pend, p)
 	return p
 }
@@ -483,6 +558,8 @@ func (m *modelC) releasePoint(p *mpend) (point string, holder *mconn) {
 
 var leaveHows = []string{"abort", "abort", "close-frame", "half-close"}
 
+var dispPool = []string{"", "", "", "", "", "empty", "empty", "nick", "other-op", "absent", "non-string"}
+
 func genC(t *rapid.T) CaseC {
 	var c CaseC
 	nu := rapid.IntRange(2, 3).Draw(t, "nusers")
@@ -515,6 +592,16 @@ func genC(t *rapid.T) CaseC {
 	claim := func(label string, s *StepC) {
 		s.Claim = rapid.SampledFrom(claims).Draw(t, label+"-claim")
 		s.ClaimN = rapid.IntRange(0, 2).Draw(t, label+"-claimn")
+	}
+	// display name of a login (Body.Info.User): mostly the operator's own name, as the client sends it
+	disp := func(label string, s *StepC) {
+		if s.Auth != "login" {
+			return
+		}
+		s.Disp = rapid.SampledFrom(dispPool).Draw(t, label+"-disp")
+		if s.Disp == "other-op" {
+			s.DispN = rapid.IntRange(0, 1).Draw(t, label+"-dispn")
+		}
 	}
 	reqKinds := []string{"ladd-dup-smb", "ladd-dup-smb", "ladd-dup-ext", "ladd-proxy", "ladd-proxy", "ledit-proxy"}
 	// reqsMaybe: 0-2 requests that are answered at once by a reply directed to one client
@@ -557,6 +644,7 @@ func genC(t *rapid.T) CaseC {
 				if s.Auth == "wrong-password" && rapid.Bool().Draw(t, "fault?") {
 					s.Fault, s.FK = genFaultC(t)
 				}
+				disp("c", &s)
 			case "leave":
 				s.C = rapid.IntRange(0, 4).Draw(t, "c")
 				s.How = rapid.SampledFrom(leaveHows).Draw(t, "how")
@@ -586,6 +674,7 @@ func genC(t *rapid.T) CaseC {
 	for i := 0; i < nops; i++ {
 		s := srcOf("op", []string{"fresh", "fresh", "fresh", "other-ip"})
 		s.K, s.Auth, s.User = "connect", "login", i
+		disp("op", &s)
 		add(s)
 		ops = append(ops, m.connect(s))
 	}
@@ -688,6 +777,7 @@ func genC(t *rapid.T) CaseC {
 		s.K = "connect"
 		s.Auth = rapid.SampledFrom([]string{"silent", "silent", "silent", "wrong-password", "login", "login"}).Draw(t, "new-auth")
 		s.User = rapid.IntRange(0, nu-1).Draw(t, "new-user")
+		disp("new", &s)
 		add(s)
 		m.connect(s)
 		bcastMaybe("new")
@@ -850,6 +940,9 @@ func genScaleC(t *rapid.T, c *CaseC, m *modelC, nu int) {
 	}
 	connect := func(label, auth string, user int, srcs []string) *mconn {
 		s := StepC{K: "connect", Auth: auth, User: user, Src: rapid.SampledFrom(srcs).Draw(t, label+"-src"), SrcN: rapid.IntRange(0, 5).Draw(t, label+"-srcn"), IP: rapid.IntRange(0, 5).Draw(t, label+"-ip")}
+		if auth == "login" {
+			s.Disp = rapid.SampledFrom(dispPool).Draw(t, label+"-disp")
+		}
 		add(s)
 		return m.connect(s)
 	}
@@ -1149,7 +1242,7 @@ func (w *worldC) svcBarrier() *core.Violation {
 }
 
 // collect reads rc's queue up to and including the projection `until`.
-func (w *worldC) collect(rc *rconn, until, sig, what string) *core.Violation {
+func (w *worldC) collect(rc *rconn, until, sig, what string, or ...string) *core.Violation {
 	for {
 		fr, ok, closed := rc.cl.Next(wsx.Watchdog)
 		if !ok {
@@ -1159,6 +1252,11 @@ func (w *worldC) collect(rc *rconn, until, sig, what string) *core.Violation {
 		rc.frames = append(rc.frames, p)
 		if p == until {
 			return nil
+		}
+		for _, o := range or {
+			if p == o {
+				return nil
+			}
 		}
 	}
 }
@@ -1170,7 +1268,11 @@ func (w *worldC) describe(rc *rconn) string {
 	}
 	switch rc.m.auth {
 	case "login":
-		s += ", authenticated as " + rc.m.user + ")"
+		s += ", authenticated as " + rc.m.user
+		if rc.m.dcls != "" {
+			s += fmt.Sprintf(" with the display name %q (%s)", rc.m.name(), rc.m.dcls)
+		}
+		s += ")"
 	case "wrong-password":
 		s += ", refused: wrong password for " + rc.m.user + ")"
 	default:
@@ -1245,6 +1347,9 @@ func (w *worldC) evaluate(rc *rconn) *core.Violation {
 			wsx.Obs("directed-reply-reached-the-authenticated-operator-whose-name-was-claimed") // not judged by C06
 		case o.m.user == rc.m.user:
 			wsx.Obs("answer-reached-a-later-session-of-the-same-operator") // the statement does not forbid it
+		case o.m.name() == rc.m.name():
+			// two AUTHENTICATED sessions logged in under one display name; HEAD resolves the sender by that name
+			wsx.Obs("answer-reached-an-authenticated-session-with-the-askers-display-name") // not judged by C06
 		default:
 			return core.V("deferred|delivered-to-other-session|"+wsx.KindOf(f)+"|src="+rc.m.src, "%s received the directed reply %q, which was asked for by %s; frames: %v", w.describe(rc), f, w.describe(o), clip(rc.frames))
 		}
@@ -1352,12 +1457,35 @@ func (w *worldC) open(mc *mconn, queue int) *core.Violation {
 				pw = u.Password
 			}
 		}
-		cl.SendJSON(wsx.LoginPkg(user, pw))
+		lp := wsx.LoginPkg(user, pw)
+		switch mc.dcls {
+		case "empty", "nick", "other-op":
+			lp.Body.Info["User"] = mc.disp
+		case "absent":
+			delete(lp.Body.Info, "User")
+		case "non-string":
+			lp.Body.Info["User"] = 7
+		}
+		if mc.dcls != "" {
+			wsx.Obs("login-display-name:" + mc.dcls)
+		}
+		cl.SendJSON(lp)
 		w.nbar++
 		b := fmt.Sprintf("in-%d", w.nbar)
-		cl.SendJSON(wsx.BarrierPkg(user, b))
-		if v := w.collect(rc, "!chat/"+user+"/"+b, "login|no-barrier-echo", w.describe(rc)+" after a correct login"); v != nil {
+		// (the teamserver stamps every later message of the session with the session's name)
+		bp := wsx.BarrierPkg(mc.name(), b)
+		if mc.dcls == "empty" {
+			// a teamserver may as well refuse the empty display name and keep the operator's name
+			// (fixes/C06-empty-display-name-...diff does): the echo tells which name the session got
+			bp.Body.Info[user] = bp.Body.Info[""]
+		}
+		cl.SendJSON(bp)
+		if v := w.collect(rc, "!chat/"+mc.name()+"/"+b, "login|no-barrier-echo", w.describe(rc)+" after a correct login", "!chat/"+user+"/"+b); v != nil {
 			return v
+		}
+		if mc.dcls == "empty" && rc.frames[len(rc.frames)-1] == "!chat/"+user+"/"+b {
+			mc.dcls = "empty->operator-name"
+			wsx.Obs("login-display-name:empty->session-named-after-the-operator")
 		}
 	case "wrong-password":
 		pw := ""
@@ -1481,8 +1609,8 @@ func (w *worldC) leaveConn(rc *rconn, how string, inBulk ...bool) *core.Violatio
 	case "login":
 		w.nbar++
 		b := fmt.Sprintf("out-%d", w.nbar)
-		rc.cl.SendJSON(wsx.BarrierPkg(rc.m.user, b))
-		if v := w.collect(rc, "!chat/"+rc.m.user+"/"+b, "operator|no-barrier-echo", w.describe(rc)+" before leaving"); v != nil {
+		rc.cl.SendJSON(wsx.BarrierPkg(rc.m.name(), b))
+		if v := w.collect(rc, "!chat/"+rc.m.name()+"/"+b, "operator|no-barrier-echo", w.describe(rc)+" before leaving"); v != nil {
 			return v
 		}
 		if v := w.evaluate(rc); v != nil {
@@ -1536,6 +1664,9 @@ func (w *worldC) ask(s StepC) *core.Violation {
 	w.pend[mp.id] = rp
 	T := packager.Type
 	wsx.Obs("ask:" + mp.kind + "+claim:" + mp.claim)
+	if mp.amb != "" {
+		wsx.Obs("ask:" + mp.kind + "+asker-name-shared-with:" + mp.amb)
+	}
 	// (the model already resolved the claim when it created mp: same state, same step)
 	_, claimName, _ := w.m.claimOf(mp.owner, s)
 	switch mp.kind {
@@ -1548,7 +1679,7 @@ func (w *worldC) ask(s StepC) *core.Violation {
 			return v
 		}
 		rp.clientID, _ = mm["Body"]["ClientID"].(string)
-		if rp.clientID == "" && mp.claim == "own" {
+		if rp.clientID == "" && mp.claim == "own" && mp.sure {
 			return core.V("harness|build-request-without-client-id", "%v", mm)
 		}
 	default:
@@ -1560,8 +1691,8 @@ func (w *worldC) ask(s StepC) *core.Violation {
 			"Binary": base64.StdEncoding.EncodeToString([]byte("not-a-coff")), "Arguments": base64.StdEncoding.EncodeToString([]byte{0, 0, 0, 0}), "Flags": "default"}))
 		w.nbar++
 		b := fmt.Sprintf("ask-%d", w.nbar)
-		rc.cl.SendJSON(wsx.BarrierPkg(rc.m.user, b))
-		if v := w.collect(rc, "!chat/"+rc.m.user+"/"+b, "operator|no-barrier-echo", w.describe(rc)+" after a BOF task"); v != nil {
+		rc.cl.SendJSON(wsx.BarrierPkg(rc.m.name(), b))
+		if v := w.collect(rc, "!chat/"+rc.m.name()+"/"+b, "operator|no-barrier-echo", w.describe(rc)+" after a BOF task"); v != nil {
 			return v
 		}
 		found := false
@@ -1585,7 +1716,8 @@ func (w *worldC) release(s StepC) *core.Violation {
 	rp := w.pend[mp.id]
 	rc := w.conns[mp.owner.id]
 	point, holder := w.m.releasePoint(mp)
-	must := mp.owner.live && mp.claim == "own" // the asker named itself and is still there: it must get the answer
+	// the asker named itself, its session name named nobody else when it asked, and it is still there: it must get the answer
+	must := mp.owner.live && mp.claim == "own" && mp.sure
 	obs := "release:" + mp.kind + "@" + point
 	if holder != nil {
 		obs += "+address-now-held-by:" + holder.auth
@@ -1636,6 +1768,9 @@ func (w *worldC) release(s StepC) *core.Violation {
 	}
 	rp.tokens = append(rp.tokens, token)
 	about := fmt.Sprintf("when the %s answer %q for %s was released (%s; the request's Head.User claim: %s)", mp.kind, token, w.describe(rc), point, mp.claim)
+	if mp.amb != "" {
+		about += "; when it asked, its session name was also the name of: " + mp.amb
+	}
 	if v := w.silentCheck("deferred-answer", mp.kind, about); v != nil {
 		return v
 	}
@@ -1663,6 +1798,11 @@ func (w *worldC) req(s StepC) *core.Violation {
 	}
 	rc := w.conns[am.id]
 	class, claimName, claimed := w.m.claimOf(am, s)
+	amb := w.m.ambiguity(am)
+	own := class == "own" && amb == ""
+	if amb != "" {
+		wsx.Obs("req:" + kind + "+asker-name-shared-with:" + amb)
+	}
 	ad := addressee{asker: rc}
 	if claimed != nil {
 		ad.claimed = w.conns[claimed.id]
@@ -1715,7 +1855,7 @@ func (w *worldC) req(s StepC) *core.Violation {
 	}
 	for _, tk := range tokens {
 		w.owner[tk] = ad
-		if class == "own" {
+		if own {
 			rc.addressed[tk] = true
 		}
 	}
@@ -1723,15 +1863,21 @@ func (w *worldC) req(s StepC) *core.Violation {
 	// the reply is written by the sender's own handler before it reads the next message
 	w.nbar++
 	b := fmt.Sprintf("req-%d", w.nbar)
-	rc.cl.SendJSON(wsx.BarrierPkg(rc.m.user, b))
-	if v := w.collect(rc, "!chat/"+rc.m.user+"/"+b, "operator|no-barrier-echo", w.describe(rc)+" after a "+kind+" request"); v != nil {
+	rc.cl.SendJSON(wsx.BarrierPkg(rc.m.name(), b))
+	if v := w.collect(rc, "!chat/"+rc.m.name()+"/"+b, "operator|no-barrier-echo", w.describe(rc)+" after a "+kind+" request"); v != nil {
 		return v
 	}
 	about := fmt.Sprintf("when %s sent a %s request whose Head.User is %q (%s)", w.describe(rc), kind, claimName, class)
-	if v := w.silentSig("leak|directed-reply|to-unauthenticated|listener-error|claim="+class, about); v != nil {
+	sig := "leak|directed-reply|to-unauthenticated|listener-error|claim=" + class
+	if am.dcls != "" {
+		// (whatever the request claims: the teamserver stamps it with the session's name)
+		sig = "leak|directed-reply|to-unauthenticated|listener-error|login-display-name=" + am.dcls
+		about += "; its login gave the display name " + strconv.Quote(am.name())
+	}
+	if v := w.silentSig(sig, about); v != nil {
 		return v
 	}
-	if class == "own" {
+	if own {
 		have := map[string]bool{}
 		for _, f := range rc.frames {
 			have[f] = true
@@ -2001,6 +2147,12 @@ func classifyC(c CaseC) core.Class {
 				}
 				lab["src:"+mc.src] = true
 				lab["conn:"+mc.auth] = true
+				if mc.auth == "login" && mc.dcls != "" {
+					lab["login-display-name:"+mc.dcls] = true
+					if ss, p := m.namesakes(mc); p > 0 || len(ss) > 0 {
+						lab["login-display-name:"+mc.dcls+"+name-shared-on-arrival"] = true
+					}
+				}
 				if mc.fault != "" {
 					lab[faultLabelC(mc.fault, mc.fk)] = true
 					if m.authLive() > 0 {
@@ -2034,6 +2186,14 @@ func classifyC(c CaseC) core.Class {
 					lab["ask:"+p.kind] = true
 					lab["claim:"+p.claim] = true
 					lab["ask:"+p.kind+"+claim:"+p.claim] = true
+					if p.owner.dcls != "" {
+						lab["ask:"+p.kind+"+asker-display-name:"+p.owner.dcls] = true
+					}
+					if p.amb != "" {
+						lab["ask:"+p.kind+"+asker-name-shared-with:"+p.amb] = true
+						fp["ask-name-shared:"+p.amb] = true
+						cl.NonTrivial = true
+					}
 					if p.claim != "own" {
 						cl.NonTrivial = true
 						if m.unauthLive() > 0 {
@@ -2046,6 +2206,14 @@ func classifyC(c CaseC) core.Class {
 					count["directed-replies"]++
 					atScale("directed-reply")
 					class, _, _ := m.claimOf(a, s)
+					if a.dcls != "" {
+						lab["req+asker-display-name:"+a.dcls] = true
+					}
+					if amb := m.ambiguity(a); amb != "" {
+						lab["req+asker-name-shared-with:"+amb] = true
+						fp["req-name-shared:"+amb] = true
+						cl.NonTrivial = true
+					}
 					lab["req:"+kind] = true
 					lab["claim:"+class] = true
 					lab["req:"+kind+"+claim:"+class] = true
@@ -2082,6 +2250,10 @@ func classifyC(c CaseC) core.Class {
 					}
 					if p.claim != "own" {
 						lab["deferred@"+point+"+claim:"+p.claim] = true
+					}
+					if p.amb != "" {
+						lab["deferred@"+point+"+asker-name-was-shared-with:"+p.amb] = true
+						fp["deferred-name-shared"] = true
 					}
 					unauth := m.unauthLive()
 					if unauth > 0 {
@@ -2135,7 +2307,7 @@ func classifyC(c CaseC) core.Class {
 func TestC06c(t *testing.T) {
 	core.Run(t, core.Spec[CaseC]{
 		Property: "C06", Sub: "c",
-		Rule: "real Teamserver.Start() served on a harness listener, 2-3 operators, a third-party service registered over the real service websocket with one agent type, one Demon session. A history of connections to /havoc/: every connection binds its local address explicitly (net.Dialer.LocalAddr; linger 0 so that a departed address is free at once): a fresh 127.0.0.1 port, the exact ip:port of an earlier departed connection (SO_REUSEADDR), or another loopback ip 127.0.0.2-7 with the port of an earlier connection; it stays silent, presents a wrong password, or logs in as an operator; connections leave (reset / close frame / half-close). Authenticated operators start work that is answered later by client id: a payload build relayed to the service (the service's AgentBuild replies - progress message / payload - are sent by the ClientID it was given) and a BOF task with python-module callback (the agent's RAN_OK / COULD_NOT_RUN callback goes through PythonModuleCallback(ClientID)); each answer is released at a generated later point: while the asker is still connected, after it left, after it left and other connections came (planned histories aim at these points; 1 in 10 histories is an unplanned step sequence), interleaved with live console broadcasts. Claimed sender: every such request, and 0-2 requests per phase that HEAD answers at once with a reply directed to ONE client (Listener Add that must fail: existing name as Smb / External listener, Http with the proxy enabled and one of the five proxy fields missing; the same Listener Edit), carries a generated Head.User claim (never checked after login): the sender's own name, the empty string, the name of another connected operator, of a configured operator who is not connected, an unknown name, the own name in another letter case. Oracle: a connection that has not sent a message has received 0 bytes at every release, broadcast and at its departure; a refused one exactly one InitConnection/Error; an authenticated one receives a targeted answer iff it is the session that asked for it and is still connected (exactly once; a later session of the same operator may or may not), and every live broadcast issued while it was authenticated; whatever an authenticated operator sends and claims, an unauthenticated connection receives nothing; a directed reply must reach the sender when it named itself, may reach the sender or the AUTHENTICATED operator whose name was claimed otherwise (not judged by C06, counted: observed directed-reply-reached-...), and no third session; frame lists are complete (one-shot chat echo read before judging; service-side barrier after every service reply). Non-trivial: an answer is released after its asker left, or while an unauthenticated connection exists, or a request claims another sender than its own, or a directed reply is produced while an unauthenticated connection exists; distinct = (set of release points, set of kinds, unauthenticated present at a release, who holds an asker's address at a release, claim class (own / empty / other name) of deferred requests and of directed-reply requests, the latter with/without an unauthenticated connection present). SCALE (shape:scale, about 1 history in 85): ONE count of the history is drawn from the threshold-adjacent pool {63,64,65, 127,128,129, 255,256,257, 511,512,513, 999,1000,1001, 1023,1024,1025, ...} and that many connections / events are produced by the same real calls as in the small histories (every connection a real loopback websocket handled by handleRequest), in two parts (half+half, or all but one / two and the rest), with the ordinary steps (live broadcast, operator login, wrong password, silent connection from a reused / other-ip address, departure of an operator or of any connection, ask, release, directed-reply request with a claimed sender) before, between and after the parts, the first step after the bulk being one that is fanned out to operators: scale:open-silent = silent connections held open at once (pool cut at 1025 in the quick tier, 2049 thorough, and at what RLIMIT_NOFILE affords: two descriptors per connection, soft limit raised to the hard one in TestMain), scale:open-authenticated = operators logged in at once, each a different operator of an enlarged profile (cut at 129 quick / 257 thorough: every login is replayed all retained events, quadratic), scale:cycles-silent / cycles-refused / cycles-login = connect-disconnect cycles, i.e. client ids handed out: silent connections that leave, wrong-password logins that are refused (each exactly one error frame, closed, record removed), one operator logging in and leaving again and again (1025 / 1025 / 129 quick; 4097 / 4097 / 257 thorough), scale:broadcasts = live console broadcasts (4097 / 8193), scale:targeted-answers = progress messages of one payload build released by client id (1025 / 4097), scale:directed-replies = failing Listener Add/Edit requests (257 / 1025); in a third of the histories whose large count is not a number of open connections a second, moderate group of 63-129 silent connections is held open as well; afterwards many of the bulk connections may leave at once so that a threshold-adjacent number (0, 63-65, 127-129) stays, and the history goes on. The oracle is the same at every step (server-side byte counter of every silent connection = 0 after every broadcast, answer, reply and at its departure; complete frame lists of operators), evaluated in the same places; only the goroutine-dump wait for departed handlers is made once per bulk instead of once per connection. Labels scale:<count>:<bucket> (buckets 64-129, 255-513, 999-1025, 2047-4097, 8191+; client-table = silent + authenticated) and at-scale:<step>|table:<bucket> (an ordinary step made while the client table holds that many records); scale histories are non-trivial when such a step happens with an unauthenticated connection present or a count other than the number of operators is large, and add (count, bucket) and (step, bucket) to the fingerprint. FAULT (wave 15; about one history in four; labels fault:socket:write-answer:fails-at-once|fails-after-k-bytes|peer-reset@connect:wrong-password+pipelined-chat, fault:refusal-cannot-be-written+while-operators-connected): ONE step of the history is a connection (fresh / reused / other-ip address) that presents a wrong password for an existing operator, with a chat message right behind it in the same segment, while the teamserver's write of the refusal fails - the connection wrapper fails its writes at once or after K bytes, or the peer resets its socket (linger 0) at once - placed early (the operators are connected) or among the late newcomers; then the history goes on (requests, releases, broadcasts, departures). Oracle unchanged: the connection's record never says authenticated, the server closes it and removes its record, it received at most its one error frame, and no operator's frame list - judged when it leaves - contains that chat message (action|chat-by-refused-connection); the fault step makes a history non-trivial",
+		Rule: "real Teamserver.Start() served on a harness listener, 2-3 operators, a third-party service registered over the real service websocket with one agent type, one Demon session. A history of connections to /havoc/: every connection binds its local address explicitly (net.Dialer.LocalAddr; linger 0 so that a departed address is free at once): a fresh 127.0.0.1 port, the exact ip:port of an earlier departed connection (SO_REUSEADDR), or another loopback ip 127.0.0.2-7 with the port of an earlier connection; it stays silent, presents a wrong password, or logs in as an operator; connections leave (reset / close frame / half-close). Authenticated operators start work that is answered later by client id: a payload build relayed to the service (the service's AgentBuild replies - progress message / payload - are sent by the ClientID it was given) and a BOF task with python-module callback (the agent's RAN_OK / COULD_NOT_RUN callback goes through PythonModuleCallback(ClientID)); each answer is released at a generated later point: while the asker is still connected, after it left, after it left and other connections came (planned histories aim at these points; 1 in 10 histories is an unplanned step sequence), interleaved with live console broadcasts. Claimed sender: every such request, and 0-2 requests per phase that HEAD answers at once with a reply directed to ONE client (Listener Add that must fail: existing name as Smb / External listener, Http with the proxy enabled and one of the five proxy fields missing; the same Listener Edit), carries a generated Head.User claim (never checked after login): the sender's own name, the empty string, the name of another connected operator, of a configured operator who is not connected, an unknown name, the own name in another letter case. Oracle: a connection that has not sent a message has received 0 bytes at every release, broadcast and at its departure; a refused one exactly one InitConnection/Error; an authenticated one receives a targeted answer iff it is the session that asked for it and is still connected (exactly once; a later session of the same operator may or may not), and every live broadcast issued while it was authenticated; whatever an authenticated operator sends and claims, an unauthenticated connection receives nothing; a directed reply must reach the sender when it named itself, may reach the sender or the AUTHENTICATED operator whose name was claimed otherwise (not judged by C06, counted: observed directed-reply-reached-...), and no third session; frame lists are complete (one-shot chat echo read before judging; service-side barrier after every service reply). Non-trivial: an answer is released after its asker left, or while an unauthenticated connection exists, or a request claims another sender than its own, or a directed reply is produced while an unauthenticated connection exists; distinct = (set of release points, set of kinds, unauthenticated present at a release, who holds an asker's address at a release, claim class (own / empty / other name) of deferred requests and of directed-reply requests, the latter with/without an unauthenticated connection present). SCALE (shape:scale, about 1 history in 85): ONE count of the history is drawn from the threshold-adjacent pool {63,64,65, 127,128,129, 255,256,257, 511,512,513, 999,1000,1001, 1023,1024,1025, ...} and that many connections / events are produced by the same real calls as in the small histories (every connection a real loopback websocket handled by handleRequest), in two parts (half+half, or all but one / two and the rest), with the ordinary steps (live broadcast, operator login, wrong password, silent connection from a reused / other-ip address, departure of an operator or of any connection, ask, release, directed-reply request with a claimed sender) before, between and after the parts, the first step after the bulk being one that is fanned out to operators: scale:open-silent = silent connections held open at once (pool cut at 1025 in the quick tier, 2049 thorough, and at what RLIMIT_NOFILE affords: two descriptors per connection, soft limit raised to the hard one in TestMain), scale:open-authenticated = operators logged in at once, each a different operator of an enlarged profile (cut at 129 quick / 257 thorough: every login is replayed all retained events, quadratic), scale:cycles-silent / cycles-refused / cycles-login = connect-disconnect cycles, i.e. client ids handed out: silent connections that leave, wrong-password logins that are refused (each exactly one error frame, closed, record removed), one operator logging in and leaving again and again (1025 / 1025 / 129 quick; 4097 / 4097 / 257 thorough), scale:broadcasts = live console broadcasts (4097 / 8193), scale:targeted-answers = progress messages of one payload build released by client id (1025 / 4097), scale:directed-replies = failing Listener Add/Edit requests (257 / 1025); in a third of the histories whose large count is not a number of open connections a second, moderate group of 63-129 silent connections is held open as well; afterwards many of the bulk connections may leave at once so that a threshold-adjacent number (0, 63-65, 127-129) stays, and the history goes on. The oracle is the same at every step (server-side byte counter of every silent connection = 0 after every broadcast, answer, reply and at its departure; complete frame lists of operators), evaluated in the same places; only the goroutine-dump wait for departed handlers is made once per bulk instead of once per connection. Labels scale:<count>:<bucket> (buckets 64-129, 255-513, 999-1025, 2047-4097, 8191+; client-table = silent + authenticated) and at-scale:<step>|table:<bucket> (an ordinary step made while the client table holds that many records); scale histories are non-trivial when such a step happens with an unauthenticated connection present or a count other than the number of operators is large, and add (count, bucket) and (step, bucket) to the fingerprint. FAULT (wave 15; about one history in four; labels fault:socket:write-answer:fails-at-once|fails-after-k-bytes|peer-reset@connect:wrong-password+pipelined-chat, fault:refusal-cannot-be-written+while-operators-connected): ONE step of the history is a connection (fresh / reused / other-ip address) that presents a wrong password for an existing operator, with a chat message right behind it in the same segment, while the teamserver's write of the refusal fails - the connection wrapper fails its writes at once or after K bytes, or the peer resets its socket (linger 0) at once - placed early (the operators are connected) or among the late newcomers; then the history goes on (requests, releases, broadcasts, departures). Oracle unchanged: the connection's record never says authenticated, the server closes it and removes its record, it received at most its one error frame, and no operator's frame list - judged when it leaves - contains that chat message (action|chat-by-refused-connection); the fault step makes a history non-trivial. SESSION NAME (wave 16; labels login-display-name:<class>, ask:<kind>+asker-display-name:<class>, ask:<kind>+asker-name-shared-with:pending|session|pending+session, req+asker-name-shared-with:..., deferred@<point>+asker-name-was-shared-with:...): every login of the histories (planned operators, newcomers, unplanned steps, the operators of scale histories) draws the DISPLAY NAME of its login message - Body.Info.User, free text next to the credentials Head.User + Password; the teamserver keeps it as the session's name, stamps every later message of the session with it and resolves 'the sender' of a request by it - from: the operator's own name (what the client sends; 5 in 11), the empty string (2 in 11; the name every client-table record has before its first message), a nickname nobody else has, the name of ANOTHER configured operator (who may be connected under that very name), no such field, a number (the last two fall back to the operator's name). All requests that are answered by client id (payload build via the service, BOF with callback, failing Listener Add/Edit) are then made by sessions whose name is also the name of other records of the client table: pending connections (silent bystanders, newcomers, the thousand silent connections of a scale history) and / or another authenticated session. Oracle unchanged for everybody who has not authenticated (0 bytes at the request, at every release - whenever it comes: owner there / left / others came -, at every broadcast and at departure; a refused connection exactly its error frame); the demand that the asker itself receives its answer is made only when, at the time of the request, its session name named no other record (HEAD takes the first record of that name, in sync.Map order; an answer that reaches another AUTHENTICATED session of the same display name is counted, not judged: observed answer-reached-an-authenticated-session-with-the-askers-display-name). The one-shot chat echoes that complete a frame list are sent under the session's name; which name a session with an empty display name got (empty, or the operator's name if the teamserver refuses the empty one) is read from the echo of its first barrier. A request made under a shared session name makes a history non-trivial and adds (request kind class, who shares the name) to the fingerprint",
 		Gen:  genC, Check: checkC, Classify: classifyC,
 		Assumptions: []string{
 			"one session per operator at a time: a generated login for an operator who is online stays a silent connection (the teamserver resolves the asking session by user name)",
